@@ -8,9 +8,14 @@
      * Gen/AddDuration.v       helpers.add_duration (translated), Spec/NativeDT.v (naive datetime arithmetic and its exceptions).
    Added here, statement by statement:
      parsing/__init__.py   _parse (suppress(ValueError) / suppress(ParserError) chain, strict gate, dateutil fallback as an OPAQUE
-                           ORACLE ARGUMENT `du`), _parse_iso8601_interval, _parse_common WITH the day_first option, _normalize;
-     parser.py             _parse ("now", the isinstance dispatch, Interval assembly with DateTime.add / subtract,
-                           Date.add(hours=...) and Time.add(years=...) = TypeError, instance(Duration) = AttributeError);
+                           ORACLE ARGUMENT `du`, its ValueError / OverflowError and an out-of-range tzoffset answered with ParserError),
+                           _parse_iso8601_interval (endpoint check, a date next to a duration taken at midnight),
+                           _parse_common WITH the day_first option, _normalize;
+     parser.py             _parse ("now", the isinstance dispatch, Interval assembly with DateTime.add / subtract inside
+                           `try ... except OverflowError: raise ParserError`, likewise pendulum.duration(...) for the compiled parser's
+                           result; Date.add(hours=...) / Time.add(years=...) = TypeError and instance(Duration) = AttributeError are
+                           still modelled in `assemble` but no longer reachable: _parse_iso8601_interval now only returns date /
+                           date-time endpoints, Proofs/C17Total.v interval_parse_dt);
      interval.py           Interval.__new__ (type checks, the `_start - offset` shift when both ends share the tzinfo object);
      CPython               str -> &str conversion of pyo3 (lone surrogates: UnicodeEncodeError, a ValueError), Unicode decimal digits
                            (`\d` and int() accept every Nd digit; Gen/UnicodeNd.v), int()'s 4300-digit limit.
@@ -143,7 +148,8 @@ Definition common_parse_df (day_first : bool) (s0 : list Z) : result IsoParse.pv
         else IsoParse.mk_time hour minute second us None
   end.
 
-(* the region of the "2:" defect: COMMON matches with its time group present and its minute group absent *)
+(* the region of the former "2:" defect: COMMON matches with its time group present and its minute group absent.  With the repaired
+   pattern (minute group mandatory) the region is empty: Proofs/C17Total.v common_minute_absent_never *)
 Definition common_minute_absent (s0 : list Z) : bool :=
   match re_match COMMON_RE COMMON_NGROUPS (fold_str s0) with
   | Some c => IsoParse.has c G_COMMON_time && negb (IsoParse.has c G_COMMON_minute)
